@@ -10,6 +10,7 @@ open Golem.Props.C05
 #print axioms fold_spec
 #print axioms forEach_spec
 #print axioms void_spec
+#print axioms toSeq_seq
 #print axioms pipe_delivered_prefix
 #print axioms pipe_complete
 #print axioms pipe_closes
